@@ -573,10 +573,20 @@ def _race(cx, op, mode):
         return
     sim.loop.settle(vt_budget=1.0)
     sim.loop.advance(0.01)
-    winners = [t for t in (t1, t2) if t.exception() is None]
+    # judged at quiescence: an initiator may be handed a connection that its controller then reports as never established
+    # (Disconnection Complete, reason 0x3E - that is what a real controller does when the advertiser does not answer); what may not
+    # be is a connection that stays up on the central's side and that the advertiser never reported
+    winners = []
+    for node, t in ((a, t1), (c, t2)):
+        if t.exception() is None:
+            conn = t.result()
+            if world[node].device.connections.get(conn.handle) is conn:
+                winners.append(node)
+            else:
+                sim.probe('race_loser_told_connection_failed_to_be_established')
     p_events = [x for x in cx.conn_events[b] if x.role == 1]
     if len(winners) > len(p_events):
-        sim.violation_once('phantom', f'race:central-connected-but-peripheral-not:{mode(b)}', f'{len(winners)} centrals were handed a connection, the advertiser reported {len(p_events)}')
+        sim.violation_once('phantom', f'race:central-connected-but-peripheral-not:{mode(b)}', f'{len(winners)} centrals hold a live connection, the advertiser reported {len(p_events)}')
 
 
 def _advsets(cx, op):
